@@ -17,11 +17,32 @@
         `Sweep.fillObj` over the whole history from `St.fresh`: every call is `tessellateFrom old c`
         with `old` = the state the MODEL of the previous call left behind (pool, spans, edges,
         queue; aborted runs included).  The implementation side is ONE real `FillTessellator`.
+  * `sweepc_reuse:32`  `<ncalls> ( P <a call of sweep_reuse> | C <rule 0/1> <orientation 0/1> <tolerance>
+        <entry events|path|ids|idsattr|builder> <handle_ix 0/1> <num_attributes> <refuse k | 0> <dropped 0/1>
+        <ncmds> (B <x> <y> <attr>* | L <x> <y> <attr>* | Q <cx> <cy> <x> <y> <attr>* |
+                 C <c1x> <c1y> <c2x> <c2y> <x> <y> <attr>* | E <close 0/1>)* )*` → per call the answer of
+        `sweep_reuse`, and after the records of every vertex of a call that carries an attribute store with
+        `n > 0` attributes `a <attr>{n}` = `FillVertex::interpolated_attributes()`.  The model side runs
+        `SweepCurves.fillObjC` (`Model/Tess/ResetSweepCurves.lean`) over the whole history from
+        `Obj.fresh`: every call starts from the object the MODEL of the previous call left behind (sweep
+        state, queue, attribute buffer).  The implementation side is ONE real `FillTessellator`.
+  * `chk_stroke_attrs` (CHECK line = what the real code did on ONE reused `StrokeTessellator`):
+        `<ncalls> ( <ev|ids|bld|drop> <n> <nEndpoints> (id (attr)^n)^nEndpoints <nVerts>
+                    ( (e id | g from to t) <k> (attr)^k )^nVerts )*`
+    per call the entry kind (`ev` = `tessellate` / `tessellate_path` without attributes, `ids` =
+    `tessellate_with_ids` / `tessellate_path` with `n` attributes, `bld` = `builder()` /
+    `builder_with_attributes(n)`), the attribute store, and per vertex its source and the attributes
+    lyon computed.  The model (`Model/Tess/StrokeAttrBuffer.lean`) threads the object's buffer through
+    the history — `prologueBuffer`, `attrsSeqB` (the interpolation loop over `buffer.len()`),
+    `bufferAfter` — and must reproduce every attribute bit for bit.  `ok <nverts>` or
+    `fail stroke-attrs/model-vs-impl generic …`.
   The history families `hist_fill`, `hist_stroke` are oracle-only (real code against real code).
 -/
 import LyonVerif.Drive.Common
 import LyonVerif.Model.Tess.Reset
 import LyonVerif.Model.Tess.ResetSweep
+import LyonVerif.Model.Tess.ResetSweepCurves
+import LyonVerif.Model.Tess.StrokeAttrBuffer
 
 namespace Lyon.Drive.C08
 open Lyon Lyon.Drive Lyon.Mono Lyon.Reset
@@ -168,10 +189,140 @@ def sweepReuse (v : Array String) : String :=
 
 end reuse
 
+/-! ### `sweepc_reuse` -/
+
+section reusec
+open Lyon.Sweep Lyon.EQ Lyon.SweepCurves
+variable [Sweep.Wide α] [Transc α] [FlatConst α]
+
+/-- one polygonal call (format of `sweep_reuse`) and the index after it -/
+def rdCallP (v : Array String) (i : Nat) : FillCall α × Nat :=
+  let subs := rdSubs (α := α) v (rdNat v (i+7)) (i+8)
+  let k := rdNat v (i+5)
+  ({ entry := entryOf (v.getD (i+3) ""), rule := if rdNat v i == 0 then .evenOdd else .nonZero,
+     horizontal := rdNat v (i+1) == 1, tol := rd v (i+2), handleIx := rdNat v (i+4) == 1, subs := subs.1,
+     refuse := if k == 0 then none else some (k - 1), dropped := rdNat v (i+6) == 1 }, subs.2)
+
+/-- the commands, the attribute values per endpoint, and the index after them -/
+def rdCmdsN (v : Array String) (nattr : Nat) : Nat → Nat → List (Cmd α) × Array (Array α) →
+    (List (Cmd α) × Array (Array α)) × Nat
+  | 0, i, acc => ((acc.1.reverse, acc.2), i)
+  | n+1, i, acc =>
+    let attrs (j : Nat) : Array α := ((List.range nattr).map fun k => rd v (j + k)).toArray
+    match v.getD i "" with
+    | "B" => rdCmdsN v nattr n (i + 3 + nattr) (.begin (rdP v (i+1)) :: acc.1, acc.2.push (attrs (i+3)))
+    | "L" => rdCmdsN v nattr n (i + 3 + nattr) (.line (rdP v (i+1)) :: acc.1, acc.2.push (attrs (i+3)))
+    | "Q" => rdCmdsN v nattr n (i + 5 + nattr) (.quad (rdP v (i+1)) (rdP v (i+3)) :: acc.1, acc.2.push (attrs (i+5)))
+    | "C" => rdCmdsN v nattr n (i + 7 + nattr)
+               (.cubic (rdP v (i+1)) (rdP v (i+3)) (rdP v (i+5)) :: acc.1, acc.2.push (attrs (i+7)))
+    | "E" => rdCmdsN v nattr n (i + 2) (.end_ (rdNat v (i+1) == 1) :: acc.1, acc.2)
+    | _ => ((acc.1.reverse, acc.2), i)
+
+def entryCOf (s : String) : EntryC :=
+  if s == "events" then .events else if s == "path" then .path else if s == "ids" then .ids false
+  else if s == "idsattr" then .ids true else .builder
+
+/-- one curved call and the index after it -/
+def rdCallC (v : Array String) (i : Nat) : CallC α × Nat :=
+  let nattr := rdNat v (i+5)
+  let k := rdNat v (i+6)
+  let cv := rdCmdsN (α := α) v nattr (rdNat v (i+8)) (i+9) ([], #[])
+  ({ entry := entryCOf (v.getD (i+3) ""), nattr := nattr, rule := if rdNat v i == 0 then .evenOdd else .nonZero,
+     horizontal := rdNat v (i+1) == 1, tol := rd v (i+2), handleIx := rdNat v (i+4) == 1, cmds := cv.1.1,
+     values := cv.1.2, refuse := if k == 0 then none else some (k - 1), dropped := rdNat v (i+7) == 1 }, cv.2)
+
+/-- the calls of a history, each with `print the attributes of its vertices` -/
+def rdAny (v : Array String) : Nat → Nat → List (AnyCall α × Bool)
+  | 0, _ => []
+  | n+1, i =>
+    if v.getD i "" == "P" then
+      let c := rdCallP (α := α) v (i+1)
+      (.poly c.1, false) :: rdAny v n c.2
+    else
+      let c := rdCallC (α := α) v (i+1)
+      (.curved c.1, (c.1.entry.mode c.1.nattr).2 && c.1.nattr > 0) :: rdAny v n c.2
+
+def iresWords : Reset.IRes α → List String
+  | .noAttributes => []
+  | .slice l => l.map fx
+  | .panic => ["panic"]
+
+def fEmitA (showAttrs : Bool) : EmitA α → String
+  | .vertex pos recs attrs =>
+    if showAttrs then unwords ([fEmit (.vertex pos recs), "a"] ++ iresWords attrs) else fEmit (.vertex pos recs)
+  | .tri a b c => fEmit (.tri a b c : Emit α)
+
+def fEmissionA (showAttrs : Bool) (r : EmissionA α) : String :=
+  match r.1 with
+  | some (.panic _) => "call panic"
+  | some (.unmodelled w) => "call unmodelled " ++ w
+  | some .fuel => "call fuel"
+  | some (.err k) => unwords (("call err " ++ k) :: r.2.map (fEmitA showAttrs))
+  | none => unwords ("call ok" :: r.2.map (fEmitA showAttrs))
+
+def sweepcReuse (v : Array String) : String :=
+  let calls : List (AnyCall α × Bool) := rdAny v (rdNat v 0) 1
+  let outs := fillObjC.outputs (Obj.fresh : Obj α) (calls.map (·.1))
+  unwords ((outs.zip (calls.map (·.2))).map fun p => fEmissionA p.2 p.1)
+
+end reusec
+
+/-! ### `chk_stroke_attrs` -/
+
+section strokeAttrs
+open Lyon.Stroke Lyon.Stroke.Full
+
+/-- the sources of the vertices of one call with the attribute tokens of the implementation; next index -/
+def rdSVerts (v : Array String) : Nat → Nat → List (Stroke.Src α × List String) × Nat
+  | 0, i => ([], i)
+  | k+1, i =>
+    let (s, j) : Stroke.Src α × Nat :=
+      if v.getD i "" == "e" then (.endpoint (rdNat v (i+1)), i+2)
+      else (.edge (rdNat v (i+1)) (rdNat v (i+2)) (rd v (i+3)), i+4)
+    let na := rdNat v j
+    let toks := (List.range na).map (fun m => v.getD (j + 1 + m) "")
+    let r := rdSVerts v k (j + 1 + na)
+    ((s, toks) :: r.1, r.2)
+
+def strokeEntryOf (kind : String) (n : Nat) : Reset.StrokeEntry :=
+  if kind == "ev" then .events else if kind == "ids" then .withIds n
+  else if kind == "bld" then .builder n else .builderDropped n
+
+/-- all calls of the history, the object's buffer threaded: `(vertices checked, first failure)` -/
+def chkStrokeCalls (v : Array String) : Nat → Nat → Nat → List α → Nat → Nat × Option String
+  | 0, _, _, _, nv => (nv, none)
+  | k+1, call, i, old, nv =>
+    let n := rdNat v (i+1)
+    let ne := rdNat v (i+2)
+    let entry := strokeEntryOf (v.getD i "") n
+    let storeL : List (Nat × List α) := rdStore v n ne (i+3)
+    let store : Nat → List α := fun id => ((storeL.find? (·.1 == id)).map (·.2)).getD []
+    let j := i + 3 + (n + 1) * ne
+    let verts := rdSVerts (α := α) v (rdNat v j) (j+1)
+    let r := attrsSeqB store (verts.1.map (·.1)) ⟨false, prologueBuffer old entry⟩
+    let next := bufferAfter old entry r.2.buf
+    match r.1 with
+    | none => (nv, some ("call " ++ toString call ++ " model: a read goes out of bounds"))
+    | some got =>
+      let bad := (got.zip (verts.1.map (·.2))).zipIdx.filter (fun (x : (List α × List String) × Nat) => x.1.1.map fx != x.1.2)
+      match bad with
+      | [] => chkStrokeCalls v k (call + 1) verts.2 next (nv + verts.1.length)
+      | b :: _ => (nv, some ("call " ++ toString call ++ " vertex " ++ toString b.2 ++ " model " ++ unwords (b.1.1.map fx) ++
+          " impl " ++ unwords b.1.2))
+
+def chkStrokeAttrs (v : Array String) : String :=
+  match chkStrokeCalls (α := α) v (rdNat v 0) 0 1 [] 0 with
+  | (nv, none) => "ok " ++ toString nv
+  | (_, some w) => "fail stroke-attrs/model-vs-impl generic " ++ w
+
+end strokeAttrs
+
 def families : List Family := [
   ⟨"mono_reuse", monoReuse (α := Float32), monoReuse (α := Float)⟩,
   Family.plain "chk_interp" (chkInterp (α := Float32)),
-  ⟨"sweep_reuse", sweepReuse (α := Float32), sweepReuse (α := Float32)⟩ ]
+  Family.plain "chk_stroke_attrs" (chkStrokeAttrs (α := Float32)),
+  ⟨"sweep_reuse", sweepReuse (α := Float32), sweepReuse (α := Float32)⟩,
+  ⟨"sweepc_reuse", sweepcReuse (α := Float32), sweepcReuse (α := Float32)⟩ ]
 
 end Lyon.Drive.C08
 
